@@ -51,6 +51,7 @@ Print Assumptions critic_unmatched_untouched.
 Theorem critic_range_frames_outside :
   forall s start len, exists mid, critic_accept_range s start len = firstn start s ++ mid ++ skipn (start + len)%nat s.
 Proof. intros. eexists. reflexivity. Qed.
+Print Assumptions critic_range_frames_outside.
 
 (* non-vacuity: a nested script meets the hypothesis; "a ~> b" has no matched pair *)
 Example nested_script :
